@@ -500,3 +500,19 @@ Print Assumptions c16_same_as_original.
 Print Assumptions c16_wire_exact_depth2.
 Print Assumptions c16_despite_nonvacuous.
 Print Assumptions c16_same_cookie_at_depth_1.
+
+(* ================================================================== the effective header list's code itself (translated from the source) *)
+(** [AmendedRequest::headers] (src/client/amended.rs) and the accessors built on it ([headers_get_all], [headers_get],
+    [headers_len]) are translated on every run by tools/rs2coq2.py (theories/Gen2.v, [gen_am_*]; the ArrayVec of added headers, the
+    unset list and the original HeaderMap are lists in iteration order, names compare as byte strings) and proved EQUAL to the model's
+    [am_headers] / [get_all] (proofs/Gen2_equiv_amended.v): caller-added headers first, in the order they were added, then the
+    original request's headers that are not unset -- the unset list filters the inherited headers only.  Trusted: the translator;
+    HeaderMap iteration order is read back from the http crate by the harness. *)
+From Hoot Require Import GenLib Gen2.
+From Hoot.proofs Require Import Gen2_equiv_amended.
+Theorem c16_code_headers : forall a, gen_am_headers (am_added a) (am_unset a) (rq_headers (am_request a)) = am_headers a.
+Proof. exact gen_am_headers_eq. Qed.
+Theorem c16_code_headers_len : forall a, gen_am_headers_len (am_added a) (am_unset a) (rq_headers (am_request a)) = len (am_headers a).
+Proof. exact gen_am_headers_len_eq. Qed.
+Print Assumptions c16_code_headers.
+Print Assumptions c16_code_headers_len.
